@@ -822,6 +822,28 @@ func (se *SpecEnv) callSpec(c *ast.CallExpr) Value {
 			unsup("viewof of %T", cv)
 		}
 		return &SliceV{Obj: pv.Obj, Path: pv.Path, Off: F.I64(0), Len: F.I64(int64(n)), Cap: F.I64(int64(n))}
+	case "bor8":
+		// the bitwise or of two bytes (the term the code's own a | b on uint8 produces)
+		return F.bitop(OBor, 8, targ(0), targ(1))
+	case "winoff", "samebase":
+		// winoff(x): the offset at which the window x (a slice, or a pointer to an array that is a window of a slice)
+		// starts in its backing object; samebase(x, a): that backing object is the array variable a
+		xv := se.rvalue(se.eval(c.Args[0]))
+		if ap, isAP := xv.(*ArrPtrV); isAP {
+			xv = ap.S
+		}
+		sv, ok := xv.(*SliceV)
+		if !ok || sv.Obj == nil {
+			unsup("%s: not a window", name)
+		}
+		if name == "winoff" {
+			return sv.Off
+		}
+		pv, okp := se.eval(c.Args[1]).(*PtrV)
+		if !okp || pv.Obj == nil {
+			unsup("samebase: second argument is not an addressable array variable")
+		}
+		return F.Bool(sv.Obj == pv.Obj && samePath(sv.Path, pv.Path))
 	case "bxor8":
 		// the bitwise exclusive or of two bytes (the term the code's own b0[j] ^ b1[j] on uint8 produces)
 		return F.bitop(OBxor, 8, targ(0), targ(1))
